@@ -293,7 +293,7 @@ def run_job(job, unit_c, workdir, incdirs):
         res['reason'] = 'vacuous: zero obligations generated'
         return res
     # expected kinds
-    for kind in job.expect:
+    for kind in (job.expect if not res['failed'] else []):
         k, _, cnt = kind.partition(':')
         n = sum(1 for o in res['obligations'] if ('.' + k + '.') in o['name'] or o['name'].endswith('.' + k))
         if n < (int(cnt) if cnt else 1):
@@ -314,7 +314,8 @@ def run_job(job, unit_c, workdir, incdirs):
         with CPU_SEM:
             rc2, out2, err2, dt2 = sh(cmd2, timeout=job.timeout, mem_kb=MEM_KB)
         res['trace_cmd'] = cmd2
-        res['trace'] = out2[-60000:]
+        res['trace_inputs'] = parse_trace_inputs(out2)
+        res['trace'] = out2 if len(out2) < 80000 else out2[:30000] + '\n[... trace shortened ...]\n' + out2[-50000:]
     else:
         res['status'] = 'ok'
     return res
@@ -413,8 +414,14 @@ def _run_check(pid, tier, seed, udir, meta, work, ev_path, t0, only):
     # fidelity: extracted C compiled natively vs the real C++ class
     fidelity = None
     fid_src = os.path.join(udir, 'fidelity.cpp')
+    fid_error = None
     if os.path.exists(fid_src):
-        fidelity = run_fidelity(udir, work, templates, seed, tier, meta)
+        try:
+            fidelity = run_fidelity(udir, work, templates, seed, tier, meta)
+        except Infra as e:
+            # decided at the end: a disagreement only matters when no obligation failed
+            fid_error = str(e)
+            fidelity = dict(error=fid_error[:2000])
 
     jobs = [j for j in all_jobs if tier == 'thorough' or j.tier == 'quick']
     if only:
@@ -466,7 +473,7 @@ def _run_check(pid, tier, seed, udir, meta, work, ev_path, t0, only):
         r0, ob0 = violations[0]
         safe = re.sub(r'[^\w.]+', '_', ob0['name'])
         replay_path = os.path.join(rdir, '%s__%s.json' % (r0['job'], safe))
-        inputs = parse_trace_inputs(r0.get('trace', ''))
+        inputs = r0.get('trace_inputs') or parse_trace_inputs(r0.get('trace', ''))
         rec = dict(property_id=pid, job=r0['job'], function_under_contract=r0['enforce'],
                    failed_obligation=dict(ob0, source_text=source_line(ob0)),
                    all_failed=[dict(job=r['job'], source_text=source_line(ob), **ob) for r, ob in violations],
@@ -553,6 +560,8 @@ def _run_check(pid, tier, seed, udir, meta, work, ev_path, t0, only):
             sys.stderr.write('FAILED OBLIGATION job=%s %s "%s" at %s:%s  %s\n' % (r['job'], ob['name'], ob['description'][:160], ob['file'], ob['line'], source_line(ob)))
         print('VIOLATION property=%s replay=%s%s' % (pid, replay_path, tail))
         return 1
+    if fid_error:
+        raise Infra(fid_error)
     if undecided:
         for r in undecided:
             sys.stderr.write('UNDECIDED job=%s: %s\n' % (r['job'], r['reason'][:500]))
